@@ -379,7 +379,7 @@ class SimParallel:
 
             return joblib.Parallel(n_jobs=self.n_jobs, prefer=self.prefer)(iterable)
         iterator = iter(iterable)
-        if c is None or self.n_jobs in (None, 1) or c.sched is not None:
+        if c is None or self.n_jobs in (None, 1) or c.sched is not None or getattr(c, "force_sequential", False):
             # sequential, in the caller's thread, in order -- as joblib does
             out = []
             for i, (func, args, kwargs) in enumerate(iterator):
